@@ -43,16 +43,16 @@ theorem parseNat4 (a b c d : Char) (na nb nc nd : Nat) (ha : IsDig a na) (hb : I
     parseNat [a, b, c, d] = some (((na * 10 + nb) * 10 + nc) * 10 + nd) := by
   obtain ⟨a1, a2, _⟩ := ha.facts; obtain ⟨b1, b2, _⟩ := hb.facts
   obtain ⟨c1, c2, _⟩ := hc.facts; obtain ⟨d1, d2, _⟩ := hd.facts
-  simp [parseNat, a1, a2, b1, b2, c1, c2, d1, d2]
+  simp [parseNat, parseStep, a1, a2, b1, b2, c1, c2, d1, d2]
 
 theorem parseNat2 (a b : Char) (na nb : Nat) (ha : IsDig a na) (hb : IsDig b nb) :
     parseNat [a, b] = some (na * 10 + nb) := by
   obtain ⟨a1, a2, _⟩ := ha.facts; obtain ⟨b1, b2, _⟩ := hb.facts
-  simp [parseNat, a1, a2, b1, b2]
+  simp [parseNat, parseStep, a1, a2, b1, b2]
 
 theorem parseNat1 (a : Char) (na : Nat) (ha : IsDig a na) : parseNat [a] = some na := by
   obtain ⟨a1, a2, _⟩ := ha.facts
-  simp [parseNat, a1, a2]
+  simp [parseNat, parseStep, a1, a2]
 
 theorem parseInt_of_digit_head (a : Char) (na : Nat) (ha : IsDig a na) (rest : Str) :
     parseInt (a :: rest) = (parseNat (a :: rest)).map (fun n => (n : Int)) := by
@@ -232,5 +232,91 @@ theorem ymd_string_shape (a b c d e g i j : Char) (na nb nc nd ne ng ni nj : Nat
   · intro f
     simp only [fromIso, hsplit, s4, s2, s2', p4, p2, p2', needSome, bind, Except.bind, pure, Except.pure]
   · simp only [fromSdmxAs, hsplit, s4, s2, s2', p4, p2, p2', needSome, bind, Except.bind, pure, Except.pure]
+
+
+/-! ### `int(str(n)) = n`: the digit list of a natural number reads back as that number -/
+
+def valOf (s : Str) : Nat := s.foldl (fun a c => a * 10 + digitVal c) 0
+
+theorem foldl_val (s : Str) (a : Nat) :
+    s.foldl (fun a c => a * 10 + digitVal c) a = a * 10 ^ s.length + valOf s := by
+  induction s generalizing a with
+  | nil => simp [valOf]
+  | cons c cs ih =>
+    simp only [List.foldl_cons, List.length_cons, valOf]
+    rw [ih, ih (0 * 10 + digitVal c)]
+    simp only [Nat.zero_mul, Nat.zero_add, Nat.pow_succ]
+    rw [Nat.add_mul, Nat.mul_assoc, Nat.mul_comm 10, Nat.add_assoc]
+
+theorem parseNat_of_digits (s : Str) (hne : s ≠ []) (hd : ∀ c ∈ s, isDigit c = true) :
+    parseNat s = some (valOf s) := by
+  have key : ∀ (t : Str) (a : Nat), (∀ c ∈ t, isDigit c = true) →
+      t.foldl parseStep (some a) = some (t.foldl (fun a c => a * 10 + digitVal c) a) := by
+    intro t
+    induction t with
+    | nil => intro a _; rfl
+    | cons c cs ih =>
+      intro a h
+      have hc : isDigit c = true := h c (by simp)
+      simp only [List.foldl_cons, parseStep, hc, if_true]
+      exact ih _ (fun x hx => h x (by simp [hx]))
+  unfold parseNat
+  have : s.isEmpty = false := by cases s <;> simp_all
+  simp only [this, Bool.false_eq_true, if_false]
+  rw [key s 0 hd]; rfl
+
+theorem digitsFuel_spec (fuel n : Nat) (acc : Str) (h : n ≤ fuel) (hacc : ∀ c ∈ acc, isDigit c = true) :
+    (∀ c ∈ digitsFuel fuel n acc, isDigit c = true) ∧ digitsFuel fuel n acc ≠ [] ∧
+    valOf (digitsFuel fuel n acc) = n * 10 ^ acc.length + valOf acc ∧
+    (digitsFuel fuel n acc).length ≥ acc.length + 1 := by
+  induction fuel generalizing n acc with
+  | zero =>
+    have hn : n = 0 := by omega
+    subst hn
+    have d0 := (digit_facts 0 (by omega))
+    refine ⟨?_, by simp [digitsFuel], ?_, by simp [digitsFuel]⟩
+    · intro c hc; simp [digitsFuel] at hc; rcases hc with rfl | hc
+      · exact d0.1
+      · exact hacc c hc
+    · simp only [digitsFuel, valOf, List.foldl_cons, Nat.zero_mul, Nat.zero_add, Nat.zero_mod]
+      rw [foldl_val, d0.2.1]; simp [valOf]
+  | succ fuel ih =>
+    unfold digitsFuel
+    split
+    · rename_i hlt
+      have dn := digit_facts n hlt
+      refine ⟨?_, by simp, ?_, by simp⟩
+      · intro c hc; simp at hc; rcases hc with rfl | hc
+        · exact dn.1
+        · exact hacc c hc
+      · simp only [valOf, List.foldl_cons, Nat.zero_mul, Nat.zero_add]
+        rw [foldl_val, dn.2.1]; simp [valOf]
+    · rename_i hge
+      have dm := digit_facts (n % 10) (by omega)
+      have hacc' : ∀ c ∈ digitChar (n % 10) :: acc, isDigit c = true := by
+        intro c hc; simp at hc; rcases hc with rfl | hc
+        · exact dm.1
+        · exact hacc c hc
+      obtain ⟨h1, h2, h3, h4⟩ := ih (n / 10) (digitChar (n % 10) :: acc) (by omega) hacc'
+      refine ⟨h1, h2, ?_, by simp at h4; omega⟩
+      rw [h3]
+      simp only [List.length_cons, valOf, List.foldl_cons, Nat.zero_mul, Nat.zero_add]
+      rw [foldl_val, dm.2.1]
+      simp only [valOf, Nat.pow_succ]
+      have : n = n / 10 * 10 + n % 10 := by omega
+      generalize 10 ^ acc.length = P at *
+      generalize List.foldl (fun a c => a * 10 + digitVal c) 0 acc = V at *
+      rw [← Nat.mul_assoc, Nat.mul_comm (n / 10) P]
+      calc P * (n / 10) * 10 + (n % 10 * P + V)
+          = P * (n / 10 * 10 + n % 10) + V := by
+            rw [Nat.mul_add, Nat.mul_assoc, Nat.mul_comm (n % 10) P, Nat.add_assoc]
+        _ = n * P + V := by rw [← this, Nat.mul_comm]
+
+/-- the digit string of `n` is a non-empty digit string whose value is `n` -/
+theorem natDigits_spec (n : Nat) :
+    (∀ c ∈ natDigits n, isDigit c = true) ∧ natDigits n ≠ [] ∧ parseNat (natDigits n) = some n := by
+  obtain ⟨h1, h2, h3, _⟩ := digitsFuel_spec n n [] (Nat.le_refl n) (by simp)
+  refine ⟨h1, h2, ?_⟩
+  rw [natDigits, parseNat_of_digits _ h2 h1, h3]; simp [valOf]
 
 end IrisVerif.Dates
